@@ -8,7 +8,7 @@
     Linux (what they stat, in which order, which error they return).
     Definitions only; lemmas are in [FS/OpsProofs.v].  Validated against the kernel by the
     "fsmodel" correspondence group of C06. *)
-From Wharf Require Import Base.Prelude FS.Tree.
+From Wharf Require Import FS.Light FS.Tree.
 
 Inductive errno := ENOENT | ENOTDIR | EISDIR | ENOTEMPTY | EEXIST | EINVAL | ELOOP | EBUSY.
 
